@@ -314,7 +314,9 @@ def rule_d(ctx, ix):
             from ..util import expand_locals
             msg_p = f.params[1]
             inner = [(it2, tg2) for it2, tg2, owner2, kind2 in iterations(f.node)
-                     if (msg_p + '.data') in unparse(expand_locals(f.node, it2)) and owner2 is not lp]
+                     if (msg_p + '.data') in unparse(expand_locals(f.node, it2)) and owner2 is not lp
+                     and not any(isinstance(x_, (ast.ListComp, ast.GeneratorExp, ast.SetComp, ast.DictComp))
+                                 for x_ in ast.walk(expand_locals(f.node, it2)))]
             if len(inner) != 1:
                 raise AnalysisError('%s: the loop over the attributes of the removed dataset is not recognised' % f.construct)
             coll = unparse(expand_locals(f.node, inner[0][0])).replace(' ', '')
